@@ -141,7 +141,7 @@ def run(ck):
     ck.mc("MC_LimbField", "MC_LimbField_61.cfg", note="toy kernels: no accumulator / carry / word overflow on every admissible representation", workers=8)
     ck.mc("MC_LimbField", "MC_LimbField_neg.cfg", note="kept counterexample: one more bit of headroom overflows", workers=8, expect_violation=True)
     ck.apalache("AP_Mul51", 2, "u64 mul: no accumulator / carry / word overflow for all limbs < 2^54 (the debug_assert bound)", cinit="CInit54")
-    ck.apalache("AP_Mul51", 2, "kept counterexample: limbs < 2^55 overflow", cinit="CInit55", expect_violation=True)
+    ck.apalache("AP_Mul51", 2, "kept counterexample: limbs < 2^55 overflow", cinit="CInit55", expect_violation=True, inv="InvBounds")
     backends = ALL_BACKENDS
     rel = build_many([(b, True, "release", ()) for b in backends], jobs=3)
     chk = build_many([(b, True, "checked", ()) for b in backends], jobs=3)
